@@ -90,13 +90,14 @@ func refStatsSigningBytes(a server.AllDeviceStats) []byte {
 type slotKey struct{ id, ts uint32 }
 
 type sim struct {
-	res     *core.Result
-	w       *srv.World
-	a       *actors
-	r       *core.RNG
-	regDone bool
-	regKey  glow.PublicKey
-	nextID  uint32
+	forceNegZero bool // the next impact round hands out -0 for every device
+	res          *core.Result
+	w            *srv.World
+	a            *actors
+	r            *core.RNG
+	regDone      bool
+	regKey       glow.PublicKey
+	nextID       uint32
 	// C02: distinct valid datagrams delivered per live (device, slot), and whether one exceeded capacity
 	slotSet  map[slotKey]map[string]uint64
 	slotOver map[slotKey]bool
@@ -348,7 +349,7 @@ func (s *sim) authorizeVariant(kind string) {
 	live := s.liveDevices()
 	switch kind {
 	case "new":
-		caps := []uint64{1000, 5000, 1 << 20, 0, 100, 1 << 62, (1<<64 - 1) / 135, 1<<64 - 1}
+		caps := append([]uint64{1000, 5000, 1 << 20, 0, 100, 1 << 62, (1<<64 - 1) / 135, 1000, 5000, 100}, capBoundaries()...)
 		s.addDevice(caps[s.r.Intn(len(caps))])
 	case "duplicate":
 		if len(live) > 0 {
@@ -707,6 +708,10 @@ func (s *sim) impactRound(between func()) {
 	tss := map[uint32]uint32{}
 	for id := range sn.Equipment {
 		vals[id] = float64(100+s.r.Intn(900)) + float64(s.r.Intn(8))/8
+		if s.r.Chance(8) || s.forceNegZero {
+			vals[id] = math.Copysign(0, -1) // -0: a value like any other for storage, archive and signature
+			s.res.Count("impact.negative-zero")
+		}
 		d := []int64{0, -1, 1, 2015, 2016, 4031, 4032, -3000}[s.r.Intn(8)]
 		if s.r.Chance(60) {
 			d = int64(w.Now) - int64(sn.Offset)
@@ -718,6 +723,7 @@ func (s *sim) impactRound(between func()) {
 		tss[id] = uint32(t)
 	}
 	asked := map[uint32]bool{}
+	s.forceNegZero = false
 	if w.ImpactRound(func(id uint32) (float64, uint32) { asked[id] = true; return vals[id], tss[id] }, between, "round") {
 		s.fail("the impact data job panics (in its background thread this kills the server)", "panic-impact")
 	}
